@@ -6,7 +6,7 @@ META = {
     "level": "model_checking",
     "technique": "TLA+ spec of the state-history index and historic reads (PathDBIndex.tla on top of PathDBHist.tla) model-checked with TLC; seeded random histories with pruning, rollbacks, other forks and late-enabled indexing executed on a real pathdb.Database; every step's projected state, index content and every HistoricStateReader read validated by TLC against PathDBIndexTrace.tla",
     "text": "TLC explores all interleavings of updates, commits, rollbacks to every root, clean reopen with indexing switched on early or late, and the completion of the initial indexing run, for every history limit, and checks that the index is exactly the set of retained histories touching each key, that every root the reader serves is a canonical retained state whose every key reads as its value in that state (first later history touching the key, else the disk layer), and that exactly the non-canonical / pruned / unknown roots are refused. The same specification judges the real code: each real step logs the database projection of C17 plus index metadata, initialisation flag and indexed ids per key; each read event logs served/refused and the value of every key (account blob compared with the canonical account of that state, incl. storage root); TLC accepts only traces in which every event is the specification's action with that outcome.",
-    "note": "Trusts TLC, the projection in harness/cmd/c17/pdb, the accessors in triedb/pathdb/verif_export_hist.go. The harness waits for the initial indexing run after every open (partially indexed states are observed as refusals only). One situation is pending as candidate defect C18-KF1 (see spec/state/NOTES.md): flattening after a rollback to state id 0 fails in the indexer; traces end there and the trace spec accepts exactly that event (TODO-KNOWN-FINDING).",
+    "note": "Trusts TLC, the projection in harness/cmd/c17/pdb, the accessors in triedb/pathdb/verif_export_hist.go. Partially indexed states are produced with a blocking gate hook in indexIniter.index (one added line, tag verif). Two situations are pending as candidate defects (spec/state/NOTES.md, TODO-KNOWN-FINDING in PathDBIndexTrace.tla and harness/cmd/c18): C18-KF1 flattening after a rollback to state id 0 fails in indexSingle; C18-KF2 a rollback while the initial indexing run has not completed fails in indexIniter.run. Traces end at those events and the trace spec accepts exactly those situations.",
     "design_ref": "3.3 C18",
 }
 
@@ -15,15 +15,25 @@ def run(ctx):
     drv = ctx.build("c18")
     ctx.model_check("state/PathDBIndex", "state/MCPathDBIndex" if not ctx.thorough else "state/MCPathDBIndexThorough",
                     timeout=ctx.pick(3600, 10800), name="MCPathDBIndex", workers=ctx.pick(4, 8), coverage=ctx.thorough)
-    tp = os.path.join(ctx.scratch, "trace.ndjson")
-    s, _ = ctx.drive(drv, ["-mode", "random", "-trace", tp, "-n", ctx.pick(16, 300), "-steps", ctx.pick(60, 150)],
+    t1 = os.path.join(ctx.scratch, "random.ndjson")
+    s, _ = ctx.drive(drv, ["-mode", "random", "-trace", t1, "-n", ctx.pick(16, 300), "-steps", ctx.pick(60, 150)],
                      name="c18-random", timeout=ctx.pick(3600, 7200))
+    # partially indexed states: background indexer held by a gate (blocking verif hook)
+    t2 = os.path.join(ctx.scratch, "gate.ndjson")
+    g, _ = ctx.drive(drv, ["-mode", "gate", "-trace", t2, "-n", ctx.pick(6, 80)], name="c18-gate", timeout=ctx.pick(3600, 7200))
     kf = s.get("counts", {}).get("KF1:index-metadata-deleted", 0)
     if kf:
         ctx.notes.append("pending candidate defect C18-KF1 (flatten after rollback to state id 0 fails in indexSingle) reproduced %d time(s); traces end at that event" % kf)
-    ok, consumed, total, r = ctx.validate("state/PathDBIndexTrace", tp, ntraces=s["traces"], timeout=ctx.pick(3600, 7200))
+    kf2 = g.get("counts", {}).get("KF2:shorten-while-initialising", 0) + s.get("counts", {}).get("KF2:shorten-while-initialising", 0)
+    if kf2:
+        ctx.notes.append("pending candidate defect C18-KF2 (rollback while the initial indexing run has not completed fails in indexIniter.run) reproduced %d time(s); traces end at that event" % kf2)
+    tp = os.path.join(ctx.scratch, "trace.ndjson")
+    with open(tp, "w") as f:
+        for p in (t1, t2):
+            f.write(open(p).read())
+    ok, consumed, total, r = ctx.validate("state/PathDBIndexTrace", tp, ntraces=s["traces"] + g["traces"], timeout=ctx.pick(3600, 7200))
     if not ok:
         ctx.reject_trace("state/PathDBIndexTrace", tp, consumed, r)
     return ctx.finish(rule="MC: all behaviours over worlds of 1 account x 1 slot, ids<=MaxId, history limits, indexing on from start or switched on at a reopen; V: random histories with reads at known roots",
-                      assumptions=["hashes injective (root = state content)", "initial indexing observed only after completion",
+                      assumptions=["hashes injective (root = state content)", "index content observed only while the background indexer is idle",
                                    "indexing is never switched off again once enabled", "no unclean restart (C20)"])
